@@ -70,6 +70,19 @@ pub(crate) fn execute_with_stream<'i>(
     trace_to_exec_err!(trace_ctx.meet_fold_start(fold_id), fold_to_string)?;
 
     let mut recursive_stream = RecursiveStreamCursor::new();
+    // reference bookkeeping for the probes: generation counts the cursor starts from, per-generation sizes, and the
+    // number of values that were added below the cursor (into generations the fold has already passed)
+    #[cfg(feature = "verif_probes")]
+    let (mut ref_cursor, mut ref_sizes, mut added_below_cursor) = {
+        let stream = get_mut_stream(exec_ctx);
+        let cursor = stream.cursor();
+        let cursor: [usize; 3] = [
+            cursor.previous_start_idx.into(),
+            cursor.current_start_idx.into(),
+            cursor.new_start_idx.into(),
+        ];
+        (cursor, stream.generation_sizes(), 0usize)
+    };
     let mut cursor_state = recursive_stream.met_fold_start(get_mut_stream(exec_ctx));
     let mut observer = FoldGenerationObserver::new();
 
@@ -93,7 +106,33 @@ pub(crate) fn execute_with_stream<'i>(
             trace_ctx,
         )?;
 
+        #[cfg(feature = "verif_probes")]
+        {
+            let sizes = get_mut_stream(exec_ctx).generation_sizes();
+            for matrix_idx in 0..3 {
+                for (generation_idx, size) in sizes[matrix_idx].iter().enumerate() {
+                    let before = ref_sizes[matrix_idx].get(generation_idx).copied().unwrap_or(0);
+                    if generation_idx < ref_cursor[matrix_idx] {
+                        added_below_cursor += size.saturating_sub(before);
+                    }
+                }
+            }
+            ref_sizes = sizes;
+        }
+
         cursor_state = recursive_stream.met_iteration_end(get_mut_stream(exec_ctx));
+
+        #[cfg(feature = "verif_probes")]
+        {
+            // the cursor was taken before the fresh empty generation for new values was appended
+            let cursor = get_mut_stream(exec_ctx).cursor();
+            let new_start: usize = cursor.new_start_idx.into();
+            ref_cursor = [
+                cursor.previous_start_idx.into(),
+                cursor.current_start_idx.into(),
+                new_start.saturating_sub(1),
+            ];
+        }
     }
 
     #[cfg(feature = "verif_probes")]
@@ -102,8 +141,16 @@ pub(crate) fn execute_with_stream<'i>(
         if stream_values > visited_values {
             air_log_targets::probe::hit(
                 "stream_fold_unvisited_values",
-                format!("{iterable_name} values={stream_values} visited={visited_values}"),
+                format!("{iterable_name} values={stream_values} visited={visited_values} added_below_cursor={added_below_cursor}"),
             );
+            // values that sit at or above the cursor are the fold's to visit: missing more than what was added
+            // below the cursor has no explanation in the recursive cursor's design
+            if stream_values - visited_values > added_below_cursor {
+                air_log_targets::probe::hit(
+                    "stream_fold_unvisited_values_unexplained",
+                    format!("{iterable_name} values={stream_values} visited={visited_values} added_below_cursor={added_below_cursor}"),
+                );
+            }
         }
     }
 
